@@ -91,6 +91,10 @@ class Suite:
     def known_key(self, case) -> str:
         return self.model_line(case)
 
+    def normalize_model(self, case, out: str) -> str:
+        """canonicalise the driver's answer before it is compared with `impl` (e.g. sort a field list)"""
+        return out
+
     def teardown(self):
         pass
 
@@ -265,6 +269,7 @@ def check(suite: Suite, tier: str, seed: int, replay: str | None = None, budget_
     if ok_b:
         try:
             model_out = run_model(lines)
+            model_out = [suite.normalize_model(c, o) for c, o in zip(cases, model_out)]
         except Exception as exc:
             report["broken_obligations"].append({"what": "model driver failed", "log": str(exc)[-2000:]})
     known = load_known(pid)
